@@ -9,6 +9,7 @@ mod dedup;
 mod recon;
 mod sess;
 mod sf;
+mod upl;
 mod shard;
 mod xorb;
 
@@ -59,6 +60,7 @@ fn main() {
             "crash" => crash::run(&toks[1..]),
             "sf" => sf::run(&toks[1..]),
             "recon" => recon::run(&toks[1..]),
+            "upl" => upl::run(&toks[1..]),
             "sess" => sess::run(&toks[1..]),
             "c07" => xorb::run_c07(&toks[1..]),
             "c07prep" => xorb::prep_c07(&toks[1..]),
